@@ -29,6 +29,7 @@ func init() {
 			ruleDecompressedLength(r)
 			ruleDirectIOAligned(r)
 			ruleAllocBounded(r)
+			ruleFitsWithoutSum(r)
 			ruleHeaderSizesChecked(r)
 		})
 	register("C12",
@@ -49,6 +50,7 @@ func init() {
 		[]string{"Kaitai vlq_base128_le = Go uvarint", "the generated Go file is what the schema compiles to (only enum and payload-length inputs are cross-checked)"},
 		func(r *Report) {
 			ruleKaitai(r)
+			ruleHeaderSizesChecked(r)
 			ruleFormat(r)
 			ruleHeaderCrc(r)
 			ruleBufferedOrder(r)
